@@ -300,6 +300,10 @@ def _row_bounds(rng, cs, kinds):
         elif k == "ranged":
             if s1 == 0.0 and s2 == 0.0:
                 s2 = rng.uniform(0.1, 2.0)
+            if rng.random() < 0.12:
+                # narrow range: distinct but very close bounds
+                s1 = 0.0
+                s2 = float(10.0 ** rng.uniform(-12, -4)) * (1.0 + abs(cs[i]))
             l[i] = cs[i] - s1
             u[i] = cs[i] + s2
     return l, u
